@@ -3,6 +3,7 @@ Model driver for C03. Line protocol (single spaces between fields; see harness/p
 
   sess <retries> <maxblocks> <uuids|-> <blocks> <filetokens|-> <ops>
   conc <retries> <uuids|-> <blocks> <schedule>      (uuids: ','-separated; the model uses their number)
+  concm <retries> <maxblocks> <uuids|-> <blocks> <schedule>     (conc = concm with MaxBlocks 0)
   seg  <blkhex|-> <offset> <length> <off> <plen>
 
   blocks    := block ('|' block)*
@@ -31,12 +32,16 @@ Model driver for C03. Line protocol (single spaces between fields; see harness/p
      k(s|c|e)<h>:<int>          File.Seek(int, SeekStart | SeekCurrent | SeekEnd) on handle h, the offset is signed;
                                 result k:<pos>, or k:neg:<pos> for ErrNegativeOffset (pos = the unchanged offset)
   every op result of a session is followed by '@' and the number of HTTP requests made so far
-  schedule  := ('s'<b> | 'f'<b>) (',' …)*   start a reader of block b (ReadAt whole block) /
-               release the blocked request of the fetch of block b; afterwards everything is released
+  schedule  := ('s'<b> | 'f'<b> | 'x') (',' …)*   start a reader of block b (ReadAt whole block) /
+               synchronous Sweep, then release the oldest blocked request of a fetch started with the locator of
+               block b / synchronous Sweep; afterwards everything is released (lowest block first, Sweep before
+               each release). Requests consume the scripted answers in the order they reach the services.
+               Result: reader results, then ev=<entries with a running fetch deleted by these Sweeps>, then the log.
 -/
 import ArvVerif.Base.MD5
 import ArvVerif.Base.Loop
 import ArvVerif.Model.C03
+import ArvVerif.Model.C03_Conc
 open ArvVerif
 open ArvVerif.C03 hiding Bytes
 
@@ -435,114 +440,160 @@ def stepSess (retries maxb nsvc blocks toks ops : String) : String :=
         | none => "bad-op"
   | _, _, _ => "bad-op"
 
-/-! concurrent schedules -/
+/-! concurrent schedules: the driver runs the transition system of Model/C03_Conc (`apply`) — the one the
+theorem `C03_bad_never_cached` is about — and adds only what the theorem abstracts from: which answers a
+fetch receives (the scripts, consumed in the order the requests reach the services), and the LRU stamps
+that decide what a Sweep deletes. -/
 
-inductive CEntry where
-  | absent
-  /-- fetch started with the locator of block `fb`; `reqs`: requests not yet released (the head is
-  blocked in the stub); `waiting`: readers parked on it -/
-  | pending (fb : Nat) (result : Entry) (reqs : List Nat) (waiting : List Nat)
-  | done (e : Entry)
+/-- one fetch goroutine of BlockCache.Get, started with the locator of block `fb`: the answers it has
+received so far, per service (`n` in total; the last request made is blocked in the stub until released) -/
+structure Fetch where
+  fid : FetchId
+  fb : Nat
+  got : List (List Resp)
+  n : Nat
 deriving Inhabited
 
-/-- The cache is keyed by the first 32 characters of the locator: entries are indexed by the first
-block of the case that has the same key. -/
 structure Conc where
   blks : Array Blk
   tries : Nat
-  ents : Array CEntry
-  results : List (Nat × String) := []
+  maxBlocks : Nat
+  cs : CS := CS.init
+  fetches : List Fetch := []
+  /-- fetches whose current request is blocked in the stub, in the order the requests arrived -/
+  blocked : List FetchId := []
+  /-- the cacheBlock (= the fetch that created it) each key of the map points to -/
+  owner : List (Key × FetchId) := []
+  /-- lastUse of every cacheBlock, logical clock -/
+  stamps : List (FetchId × Nat) := []
+  clock : Nat := 0
   nreaders : Nat := 0
   log : List (Nat × Nat) := []
-
-def canon (blks : Array Blk) (b : Nat) : Nat :=
-  match blks[b]? with
-  | none => b
-  | some blk => ((List.range blks.size).find? (fun i => match blks[i]? with
-      | some x => x.loc.take 32 == blk.loc.take 32
-      | none => false)).getD b
+  /-- how many entries whose fetch was still running were deleted by the schedule's synchronous Sweeps -/
+  evicted : Nat := 0
 
 def showRead (e : Entry) : String :=
   let (d, err) := readAtEntry e 0 65536
   s!"{hexB d}:{optErr err}"
 
-def concFinish (st : Conc) (k : Nat) (e : Entry) (waiting : List Nat) : Conc :=
-  { st with ents := st.ents.set! k (.done e),
-            results := st.results ++ waiting.map (fun r => (r, showRead e)) }
+def Conc.touch (st : Conc) (f : FetchId) : Conc :=
+  let now := st.clock + 1
+  { st with clock := now, stamps := (f, now) :: st.stamps.filter (fun p => p.1 != f) }
 
-def concStart (st : Conc) (b : Nat) : Option Conc :=
-  let k := canon st.blks b
-  match st.blks[b]?, st.ents[k]? with
-  | some blk, some ent =>
-    let r := st.nreaders
-    let st := { st with nreaders := r + 1 }
-    let startFetch : Conc :=
-      let (e, g) := fetch md5hex id blk.loc st.tries blk.order { scripts := blk.scripts }
-      let st := { st with blks := st.blks.set! b ({ blk with scripts := g.scripts } : Blk) }
-      match g.log with
-      | [] => concFinish st k e [r]
-      | s :: _ => { st with ents := st.ents.set! k (.pending b e g.log [r]), log := st.log ++ [(b, s)] }
-    match ent with
-    | .absent => some startFetch
-    | .done e => if e.err.isNone then some { st with results := st.results ++ [(r, showRead e)] } else some startFetch
-    | .pending fb e reqs w => some { st with ents := st.ents.set! k (.pending fb e reqs (w ++ [r])) }
-  | _, _ => none
+def Conc.stampOf (st : Conc) (f : FetchId) : Nat :=
+  match st.stamps.find? (fun p => p.1 == f) with
+  | some p => p.2
+  | none => 0
 
-/-- release the blocked request of the fetch that was started with the locator of block `b` -/
-def concRelease (st : Conc) (b : Nat) : Conc :=
-  let k? := (List.range st.ents.size).find? (fun k => match (st.ents[k]? : Option CEntry) with
-    | some (CEntry.pending fb _ _ _) => fb == b
-    | _ => false)
-  match k? with
+/-- BlockCache.Sweep: the executable LRU rule of the model (`sweep`) over the map's entries, applied to the
+transition system as the action `sweep keep` -/
+def Conc.doSweep (st : Conc) : Conc :=
+  let slots : List Slot := st.owner.map (fun p => { key := p.1, entry := { data := [], err := none }, lastUse := st.stampOf p.2 })
+  let kept := (sweep st.maxBlocks slots).map (·.key)
+  let keep : Key → Bool := fun k => kept.contains k
+  let gone := (st.owner.filter (fun p => !keep p.1 && (match st.cs.cache p.1 with
+    | some (.pending _) => true
+    | _ => false))).length
+  { st with cs := apply st.cs (.sweep keep), owner := st.owner.filter (fun p => keep p.1), evicted := st.evicted + gone }
+
+def appendAt (l : List (List Resp)) (i : Nat) (r : Resp) : List (List Resp) :=
+  (List.range l.length).zip l |>.map (fun p => if p.1 == i then p.2 ++ [r] else p.2)
+
+/-- Let fetch `fid` run until its next request reaches a service (it then blocks there) or until it is
+done (fetchDone: outcome stored in its cacheBlock, waiting readers woken and touching it, then the
+`go c.Sweep()`). The answers received so far determine, through the model's `fetch`, what it does next:
+the request log of a run over exactly those answers is correct up to the first unanswered request. -/
+def Conc.advance (st : Conc) (fid : FetchId) : Conc :=
+  match st.fetches.find? (fun f => f.fid == fid) with
   | none => st
-  | some k =>
-    match (st.ents[k]? : Option CEntry) with
-    | some (CEntry.pending fb e (_ :: rest) w) =>
-      match rest with
-      | [] => concFinish st k e w
-      | s :: _ => { st with ents := st.ents.set! k (.pending fb e rest w), log := st.log ++ [(fb, s)] }
-    | _ => st
+  | some f =>
+    match st.blks[f.fb]? with
+    | none => st
+    | some blk =>
+      let (e, g) := fetch md5hex id blk.loc st.tries blk.order { scripts := f.got }
+      match g.log[f.n]? with
+      | some svc =>
+        let (resp, scripts') := popResp blk.scripts svc
+        let f' : Fetch := { f with got := appendAt f.got svc resp, n := f.n + 1 }
+        { st with blks := st.blks.set! f.fb ({ blk with scripts := scripts' } : Blk),
+                  fetches := st.fetches.map (fun x => if x.fid == fid then f' else x),
+                  blocked := st.blocked ++ [fid],
+                  log := st.log ++ [(f.fb, svc)] }
+      | none =>
+        let woken := st.cs.waiting.any (fun w => w.2.2 == fid)
+        let st1 : Conc := { st with cs := apply st.cs (.fetchDone fid e), fetches := st.fetches.filter (fun x => x.fid != fid) }
+        let st2 : Conc := if woken then st1.touch fid else st1
+        -- the fetch goroutine's own `go c.Sweep()`; not counted in `evicted`
+        { st2.doSweep with evicted := st2.evicted }
+
+def concStart (st : Conc) (b : Nat) (nsvc : Nat) : Option Conc :=
+  match st.blks[b]? with
+  | none => none
+  | some blk =>
+    let key : Key := blk.loc.take 32
+    let r := st.nreaders
+    let cs' := apply st.cs (.lookup r key)
+    let st' : Conc := { st with cs := cs', nreaders := r + 1 }
+    if cs'.nextFid != st.cs.nextFid then
+      -- a new cacheBlock and its fetch goroutine
+      let fid : FetchId := (key, st.cs.nextFid)
+      let nf : Fetch := { fid := fid, fb := b, got := List.replicate nsvc [], n := 0 }
+      let owner2 := (key, fid) :: st'.owner.filter (fun p => p.1 != key)
+      let st2 : Conc := { st' with owner := owner2, fetches := st'.fetches ++ [nf] }
+      some ((st2.touch fid).advance fid)
+    else if cs'.results.length != st.cs.results.length then
+      -- served from a finished entry: the reader touches that cacheBlock
+      match st'.owner.find? (fun p => p.1 == key) with
+      | some p => some (st'.touch p.2)
+      | none => some st'
+    else some st'       -- joined a pending fetch
+
+/-- release the oldest blocked request of a fetch that was started with the locator of block `b`
+(after a synchronous Sweep) -/
+def concRelease (st : Conc) (b : Nat) : Conc :=
+  let st : Conc := st.doSweep
+  let cand := st.blocked.find? (fun fid => st.fetches.any (fun f => f.fid == fid && f.fb == b))
+  match cand with
+  | none => st
+  | some fid => ({ st with blocked := st.blocked.erase fid } : Conc).advance fid
 
 def concDrain (st : Conc) : Nat → Conc
   | 0 => st
   | fuel + 1 =>
-    let fbs := st.ents.toList.filterMap (fun e => match e with
-      | .pending fb _ _ _ => some fb
-      | _ => none)
+    let fbs := st.blocked.filterMap (fun fid => (st.fetches.find? (fun f => f.fid == fid)).map (·.fb))
     match fbs with
     | [] => st
     | f :: rest => concDrain (concRelease st (rest.foldl min f)) fuel
 
-def stepConc (retries nsvc blocks sched : String) : String :=
-  match parseNat? retries, countUuids nsvc with
-  | some r, some k =>
+def stepConc (retries maxb nsvc blocks sched : String) : String :=
+  match parseNat? retries, parseNat? maxb, countUuids nsvc with
+  | some r, some mb, some k =>
     match parseBlocks k blocks with
     | none => "bad-op"
     | some blks =>
-      let st0 : Conc := { blks := blks, tries := r + 1, ents := Array.replicate blks.size .absent }
+      let st0 : Conc := { blks := blks, tries := r + 1, maxBlocks := mb }
       let steps := if sched == "-" then [] else sched.splitOn ","
       let res := steps.foldl (fun (acc : Option Conc) s =>
         match acc with
         | none => none
         | some st =>
+          if s == "x" then some st.doSweep else
           match parseNat? (s.drop 1).toString with
           | none => none
           | some b =>
-            if s.startsWith "s" then concStart st b
-            else if s.startsWith "f" then (if b < st.ents.size then some (concRelease st b) else none)
+            if s.startsWith "s" then concStart st b k
+            else if s.startsWith "f" then (if b < st.blks.size then some (concRelease st b) else none)
             else none) (some st0)
       match res with
       | none => "bad-op"
       | some st =>
-        let total := st.log.length + (st.ents.toList.map (fun e => match e with
-          | .pending _ _ reqs _ => reqs.length
-          | _ => 0)).sum
-        let st := concDrain st (total + 1)
-        let rs := (List.range st.nreaders).map (fun r => match st.results.find? (fun p => p.1 == r) with
-          | some p => p.2
+        let total := (st.fetches.length + 1) * ((r + 1) * k + 1)
+        let st := concDrain st (total + st.blocked.length + 1)
+        let rs := (List.range st.nreaders).map (fun r => match st.cs.results.find? (fun p => p.1 == r) with
+          | some p => showRead p.2.2
           | none => "lost")
-        (if rs.isEmpty then "-" else ",".intercalate rs) ++ " " ++ showLog st.log
-  | _, _ => "bad-op"
+        (if rs.isEmpty then "-" else ",".intercalate rs) ++ s!" ev={st.evicted} " ++ showLog st.log
+  | _, _, _ => "bad-op"
 
 /-- storedSegment.ReadAt over a planted block (backend = BlockCache.ReadAt on a good entry). -/
 def stepSeg (hex offset length off plen : String) : String :=
@@ -557,7 +608,8 @@ def stepSeg (hex offset length off plen : String) : String :=
 def step (line : String) : String :=
   match fields line with
   | ["sess", retries, maxb, nsvc, blocks, toks, ops] => stepSess retries maxb nsvc blocks toks ops
-  | ["conc", retries, nsvc, blocks, sched] => stepConc retries nsvc blocks sched
+  | ["conc", retries, nsvc, blocks, sched] => stepConc retries "0" nsvc blocks sched
+  | ["concm", retries, maxb, nsvc, blocks, sched] => stepConc retries maxb nsvc blocks sched
   | ["seg", hex, offset, length, off, plen] => stepSeg hex offset length off plen
   | _ => "bad-op"
 
